@@ -2,6 +2,8 @@
 DIRECT ORACLE of the property on an implementation event log (independent of the Lean model).
 
 program = {"limits": [cap, ...], "fibers": [[op, ...], ...]}     fiber 0 = main (spawns 1..n-1 in order, then its ops)
+          optional "sups": [None | chan, ...] per fiber: fiber f is spawned by (ev/go fn nil c<chan>), the channel is its
+          supervisor: when f finishes the loop pushes (:ok f nil) / (:error f nil) into it (logged as 90000 + 10 f + err)
 op      = ("g", c, x) | ("t", c) | ("c", c) | ("y",) | ("y", ms) | ("s", [clause, ...]) | ("r", [clause, ...])
           | ("x", g)  (ev/cancel fiber-g "cancelled"), g != own fiber
           | ("d", ms, n)  (ev/with-deadline ms/1000 <the next n ops of this fiber>)
@@ -46,7 +48,22 @@ def assign_values(prog):
             else:
                 fo.append(op)
         out.append(fo)
-    return {"limits": list(prog["limits"]), "fibers": out}
+    res = {"limits": list(prog["limits"]), "fibers": out}
+    if prog.get("sups"):
+        res["sups"] = list(prog["sups"])
+    return res
+
+
+def sup_of(prog, f):
+    s = prog.get("sups") or []
+    return s[f] if f < len(s) else None
+
+
+SUP_OP = 10 ** 6     # "operation index" of a fiber's supervisor event: after all its operations
+
+
+def sup_event(f, err):
+    return 90000 + 10 * f + (1 if err else 0)
 
 
 def clause_tok(cl):
@@ -73,11 +90,16 @@ def op_tok(op):
 def model_line(prog, rng, cfg="gen"):
     lim = ",".join(str(x) for x in prog["limits"]) or "-"
     r = ",".join(str(x) for x in rng) or "-"
-    return "prog %s %s %s " % (cfg, lim, r) + " / ".join(" ".join(op_tok(o) for o in ops) for ops in prog["fibers"])
+    return "prog %s %s %s " % (cfg, lim, r) + " / ".join(" ".join(fiber_toks(prog, f)) for f in range(len(prog["fibers"])))
+
+
+def fiber_toks(prog, f):
+    sv = sup_of(prog, f)
+    return (["S%d" % sv] if sv is not None else []) + [op_tok(o) for o in prog["fibers"][f]]
 
 
 def short(prog):
-    return "caps=%s | " % ",".join(map(str, prog["limits"])) + " / ".join(" ".join(op_tok(o) for o in ops) for ops in prog["fibers"])
+    return "caps=%s | " % ",".join(map(str, prog["limits"])) + " / ".join(" ".join(fiber_toks(prog, f)) for f in range(len(prog["fibers"])))
 
 
 def clause_janet(cl):
@@ -118,7 +140,8 @@ def janet_source(prog):
                 i += 1
         return " ".join(out)
     for f in range(1, len(prog["fibers"])):
-        lines.append("  (put fibs %d (vreg (ev/go (fn [] %s nil)) %d))" % (f, body(f, prog["fibers"][f]), f))
+        sv = sup_of(prog, f)
+        lines.append("  (put fibs %d (vreg (ev/go (fn [] %s nil)%s) %d))" % (f, body(f, prog["fibers"][f]), "" if sv is None else " nil c%d" % sv, f))
     lines.append("  " + body(0, prog["fibers"][0]) + " nil)")
     return "\n".join(lines) + "\n"
 
@@ -236,6 +259,22 @@ def random_program(rng, max_fibers=4, max_ops=4, max_ch=3, max_cap=2, max_clause
                 ops.append(("r" if r >= 84 else "s", cls))
         fibers.append(ops)
     return assign_values({"limits": limits, "fibers": fibers})
+
+
+def supervised_program(rng):
+    """random program (no cancel / deadline) in which some spawned fibers have a supervisor channel; the main fiber (and
+    others) take from / close the supervisor channels"""
+    prog = random_program(rng, max_fibers=4, max_ops=4, max_ch=3, max_cap=2, max_clauses=2)
+    nf, nch = len(prog["fibers"]), len(prog["limits"])
+    sups = [None] + [(rng.below(nch) if rng.chance(2, 3) else None) for _ in range(nf - 1)]
+    used = sorted(set(c for c in sups if c is not None))
+    fibers = [list(ops) for ops in prog["fibers"]]
+    for c in used:     # somebody listens to / closes the supervisor channel
+        r = rng.below(10)
+        f = rng.below(nf)
+        op = ("t", c) if r < 6 else ("c", c) if r < 8 else ("s", [("t", c)])
+        fibers[f].insert(rng.below(len(fibers[f]) + 1), op)
+    return assign_values({"limits": prog["limits"], "fibers": fibers, "sups": sups})
 
 
 def ringwrap_program(rng):
@@ -356,7 +395,8 @@ def oracle(prog, verdict, log):
     stats = {"gives_immediate": 0, "gives_blocked": 0, "takes_ready": 0, "takes_waited": 0, "selects_immediate": 0,
              "selects_waited": 0, "close_wakes": 0, "received": 0, "nil_results": 0, "losing_give_delivered": 0,
              "deadlocks": 0, "errors": 0, "stale_tasks_in_runq": 0, "cancelled_fibers": 0, "kept_checks": 0,
-             "kept_checks_select": 0, "select_gives_immediate": 0}
+             "kept_checks_select": 0, "select_gives_immediate": 0,
+             "supervised_fibers": 0, "supervisor_events": 0}
     try:
         ev = parse_log(log)
     except Exception as e:  # malformed log is a result too
@@ -373,7 +413,12 @@ def oracle(prog, verdict, log):
                 for cl in op[1]:
                     if cl[0] == "g":
                         offered[cl[2]] = (f, i, cl[1], True)
-    begun = set()            # (f, i) whose B was seen
+    for f in range(len(fibers)):
+        sv = sup_of(prog, f)
+        if sv is not None:
+            for err in (0, 1):
+                offered[sup_event(f, err)] = (f, SUP_OP, sv, False)
+    begun = set((f, SUP_OP) for f in range(len(fibers)))   # (f, i) whose B was seen; (f, SUP_OP): the supervisor event of f
     closed_at = {}           # chan -> True once a close op began
     received_vals = {}       # value -> (taker fiber, opidx)
     recv_order = {}          # (giver, taker, chan) -> [values in receive order]
@@ -644,6 +689,28 @@ def oracle(prog, verdict, log):
                 mine = [x for x in ch0["r"] + ch0["w"] if x[0] == f and live(x, final)]
                 if mine:
                     fails.append((SELF_MATCH, "fiber %d ended (%s) with a current registration %r on channel %d" % (f, s0, mine, c0)))
+    # supervisor events: a supervised fiber that finished has produced exactly one event (:ok or :error, matching how
+    # it ended), received by somebody or still queued in its supervisor channel - unless that channel was closed
+    for f in range(len(fibers)):
+        sv = sup_of(prog, f)
+        if sv is None or f >= len(final["st"]):
+            continue
+        stats["supervised_fibers"] += 1
+        ended = final["st"][f]
+        seen = []
+        for err in (0, 1):
+            v = sup_event(f, err)
+            n = (1 if v in received_vals else 0) + sum(ch["items"].count(str(v)) for ch in final["chans"].values())
+            seen += [err] * n
+        if ended == "dead" or ended.startswith("error"):
+            want = [1 if ended.startswith("error") else 0]
+            if seen != want and not (closed_at.get(sv) and seen == []):
+                fails.append(("supervisor-event-count", "supervised fiber %d ended %s; events seen (0 = :ok, 1 = :error) %r, expected %r "
+                              "(supervisor channel %d%s)" % (f, ended, seen, want, sv, ", closed during the run" if closed_at.get(sv) else "")))
+            elif seen:
+                stats["supervisor_events"] += 1
+        elif seen:
+            fails.append(("supervisor-event-count", "supervised fiber %d has not finished (%s) but events %r exist" % (f, ended, seen)))
     susp = [f for f, s in enumerate(final["st"]) if s == "suspended"]
     if verdict == "ok" and (susp or final["lc"] != 0):
         fails.append(("abnormal-run", "loop finished with suspended fibers %r / listener count %r" % (susp, final["lc"])))
